@@ -44,7 +44,7 @@ THEOREMS = ["C20_corr",
             "C20_labels_ndarray_note",
             "C20_noise_cat",
             "C20_noise_cat_check_sound",
-            "C20_noise_cat_progress",
+            "C20_noise_cat_progress", "C20_noise_slices_prefix_refuted",
             "C20_noise_missing",
             "C20_noise_missing_check_sound",
             "C20_noise_count",
@@ -59,9 +59,11 @@ CFUN = {"linear": "CLinear", "nonlinear": "CNonlinear", "_xor": "CXor", "_and": 
 CFUN_INV = {v: k for k, v in CFUN.items()}
 DECISIONS = ("quarter_sum", "first_col", "neg_weighted")
 TOL_CORR = 1e-9
-# which reading of the two ambiguous places the repository is KNOWN to implement; None = decided per run by what reproduces
-# the cases (see choose_modes).  Pin (True / False) once the repairs notes/C20.md proposes are committed or rejected.
-PINNED_VARIANTS = {"cum": None, "honour": None}
+# which reading of the two places modelled in two variants the repository implements (None would mean: decided per run by what
+# reproduces the cases, see choose_modes).  Pinned: the per-label slices of categorical noise are the repaired ones (cumulative
+# offsets, /repo 501d3c0) - the old reading is no longer accepted; a scalar p with n > 2 is ignored by generate_labels (the
+# proposed repair was not taken; the accumulated percents come from the np.percentile oracle).
+PINNED_VARIANTS = {"cum": True, "honour": False}
 
 
 # ---------------------------------------------------------------------------------------------------------------
